@@ -152,7 +152,52 @@ def c11(ctx):
     ctx.assumptions += ["term enumerations of views are judged loosely (superset of the view's terms, subset of the selected quads' terms)"]
 
 
+def c15(ctx):
+    binary = build()
+    mc = Bg(lambda: model_check(ctx, "MC_Streams", workers=4, timeout=600))
+    out = tlc(ctx, "Gen_Streams", workers=1, timeout=600)
+    tlc_must_be_clean(out, "Gen_Streams")
+    pipes = []
+    for line in out.splitlines():
+        line = line.strip()
+        if line.startswith('"{') and "PIPE" in line[:40]:
+            pipes.append(json.loads(json.loads(line)))
+    if len(pipes) < 60000:
+        raise ToolError("Gen_Streams printed only %d pipelines" % len(pipes))
+    genf = os.path.join(ctx.gen, "pipes.ndjson")
+    with open(genf, "w") as f:
+        for p in pipes:
+            f.write(json.dumps(p) + "\n")
+    stride, nrand = (4, 6000) if ctx.quick() else (1, 60000)
+    ctx.exhaustive = not ctx.quick()
+    tr = os.path.join(ctx.traces, "streams.ndjson")
+    sv(binary, ["streams", "--gen", genf, "--stride", stride, "--rand", nrand, "--seed", ctx.seed, "--out", tr])
+    trace = read_trace(tr)
+    mism = trace_check(ctx, "Trace_Streams", tr)
+    bad = set()
+    for line, fields in mism:
+        e = trace[line - 1]
+        bad.add(line)
+        if e["ev"] == "Panic":
+            key = "panic"
+        else:
+            key = "%s/%s/%s" % (e["srckind"], e["sink"], fields[0])
+        ctx.violations.append({"key": key, "detail": "pipeline not explained by Streams (%s): %s" % (fields[0], json.dumps(e)[:400]), "event": e, "trace": tr, "line": line})
+    ctx.traces_validated += len(trace) - len(bad)
+    for e in trace:
+        if e["ev"] == "Pipe" and (e["k"] or e["j"] or e["sink"] == "store"):
+            ctx.distinct.add(h([e["srckind"], e["sink"], e["src"], e["k"], e["chain"], e["j"], e["driver"]]))
+    ctx.samples += [e for e in trace if e["ev"] == "Pipe" and e["result"] != "ok"][:3]
+    mc.join()
+    ctx.rule = ("MC_Streams: all 63,680 pipelines (sources <=3 items over 4 values, every source-fault position, chains of depth <=3 over map/filter/filter_map, sink fault 0..3) "
+                "model-checked (prefix, stop, closed form = state machine); Gen_Streams prints them and the harness runs every %s one on the real combinators with both drivers; "
+                "%d seeded random pipelines add iterator-form adapters, to_quads/to_triples, N-Triples and Turtle parser sources (fault before or inside a multi-triple statement), "
+                "collectors and capacity-limited store sinks read back through three index arms. distinct = pipelines with a fault" % ("4th" if ctx.quick() else "single", nrand))
+    ctx.assumptions += ["the closed form Run is what the trace spec evaluates; MC_Streams proves it equal to the step-by-step state machine on the model's bounds"]
+
+
 FAMILIES = {
+    "C15": c15,
     "C11": c11,
     "C01": c01,
 }
